@@ -252,6 +252,9 @@ CONSTANTS
   MaxCalls = %d
   DrainOnDrop = %s
   Ans <- MCAns
+  AnsAll <- MCAnsAll
+  WidenOnNotUnique = %s
+INVARIANT SelectionKept
 INVARIANT Aligned
 INVARIANT CleanStart
 INVARIANT HistoryFree
@@ -263,15 +266,19 @@ def irrd_design(tier):
     """Irrd.tla: the pipelined query protocol as query.rs / irrc use it, every history of resolver calls; the
     negative control (a dropped pipeline forgets what is outstanding) must be refuted by TLC."""
     n = 4 if tier == "thorough" else 3
-    pos = run_tlc("MCIrrd", IRRD_CFG % (n, "TRUE", "PROPERTY Finishes"), "irrd-design", workers=8, timeout=3000)
+    pos = run_tlc("MCIrrd", IRRD_CFG % (n, "TRUE", "FALSE", "PROPERTY Finishes"), "irrd-design", workers=8, timeout=3000)
     if pos["violated"]:
         raise ToolError(f"Irrd.tla: {pos['violated']} violated by the model of the code as it is (see {pos['out']})")
-    neg = run_tlc("MCIrrd", IRRD_CFG % (2, "FALSE", ""), "irrd-negative", workers=4, timeout=600)
+    neg = run_tlc("MCIrrd", IRRD_CFG % (2, "FALSE", "FALSE", ""), "irrd-negative", workers=4, timeout=600)
     if not neg["violated"]:
         raise ToolError("Irrd.tla: the negative control (DrainOnDrop = FALSE) was not refuted - the model lost its teeth")
+    neg2 = run_tlc("MCIrrd", IRRD_CFG % (2, "TRUE", "TRUE", ""), "irrd-negative-sources", workers=4, timeout=600)
+    if not neg2["violated"]:
+        raise ToolError("Irrd.tla: the negative control (WidenOnNotUnique = TRUE) was not refuted - the model lost its teeth")
     return {"module": "Irrd.tla / MCIrrd", "histories_of_resolver_calls_up_to": n, "states": pos["distinct"], "transitions": pos["generated"],
-            "depth": pos["depth"], "invariants": ["Aligned", "CleanStart", "HistoryFree"], "liveness": "Finishes",
-            "negative_control": {"DrainOnDrop": False, "violated": neg["violated"], "states": neg["distinct"]}}
+            "depth": pos["depth"], "invariants": ["Aligned", "CleanStart", "HistoryFree", "SelectionKept"], "liveness": "Finishes",
+            "negative_control": {"DrainOnDrop": False, "violated": neg["violated"], "states": neg["distinct"]},
+            "negative_control_sources": {"WidenOnNotUnique": True, "violated": neg2["violated"], "states": neg2["distinct"]}}
 
 def check_c17(tier):
     t0 = time.time(); prop = "C17"
